@@ -130,12 +130,11 @@ impl Prop for C09 {
         let (req, req_head_len, resp, resp_head_len) = if h2 {
             let self_ref = r.chance(1, 3);
             let cont = r.chance(1, 6);
-            let (rq, st) = http2::connection_start(r, &http2::Opts { request: true, hostile: http2::Hostile::None, fancy_headers: false, odd_order: false, self_ref, continuation: cont });
-            let (rs, st2) = http2::connection_start(r, &http2::Opts { request: false, hostile: http2::Hostile::None, fancy_headers: false, odd_order: false, self_ref: false, continuation: false });
+            let (rq, st) = http2::connection_start(r, &http2::Opts { request: true, hostile: http2::Hostile::None, fancy_headers: false, odd_order: false, self_ref, continuation: cont, big_frame: None, announce_max_frame: false });
+            let (rs, st2) = http2::connection_start(r, &http2::Opts { request: false, hostile: http2::Hostile::None, fancy_headers: false, odd_order: false, self_ref: false, continuation: false, big_frame: None, announce_max_frame: false });
             (rq, st.head_end, rs, st2.head_end)
         } else {
-            let rq = http1::request(r, 300);
-            let rs = http1::response(r, 400);
+            let (rq, rs) = if r.chance(1, 10) { (http1::exotic_request(r), http1::exotic_response(r)) } else { (http1::request(r, 300), http1::response(r, 400)) };
             (rq.bytes, rq.head_len, rs.bytes, rs.head_len)
         };
         let v6 = r.chance(1, 5);
